@@ -8,7 +8,12 @@
       open under the shared state lock, and its next step returns the content;
       reader_blocks_exclusive_S: meanwhile a writer at lock_S is blocked;
       progA_never_missing: the instance of C05_read_never_fails.
-   3. Progress: the step bound of C15_progress and C15_calls_complete on the two-put program. *)
+   3. Progress: the step bound of C15_progress and C15_calls_complete on the two-put program.
+   4. Faults: the two-put program with the path of the first blob obstructed (the rename fails,
+      the intent is reverted, the put returns CErr) and with failing checkpoints; the general
+      theorems instantiated with a nonempty [bad].  (The F6 schedule is in ConcFault.v.)
+
+   Sections 1-3 instantiate the fault parameters with nobad / false. *)
 From Cas Require Import Base Codec SMap Index Conc.
 From CasProofs Require Import SMapProofs IndexProofs ConcInv ConcProofs ConcProgress ConcReads.
 From Coq Require Import List NArith Lia Bool.
@@ -41,6 +46,9 @@ Proof.
   - apply IH; assumption.
 Qed.
 
+(* the fault-free instance of the fault parameters *)
+Definition nobad : bytes -> bool := fun _ => false.
+
 (* ---- 1. two puts of the same key ---- *)
 Definition prog2 : list (nat * list ccall) :=
   [(1%nat, [KPut [1] [10]]); (2%nat, [KPut [1] [20; 21]])].
@@ -61,15 +69,15 @@ Definition sched_mix : list nat :=
 Definition sched_mix' : list nat :=
   [1; 2; 1; 2; 1; 2; 2; 2; 2; 2; 2; 2; 1; 1; 1; 1; 1; 1; 1; 1; 1]%nat.
 
-Definition g_seq := crun toyH lex_cmp 100 (init_c prog2 []) sched_seq.
-Definition g_mix := crun toyH lex_cmp 100 (init_c prog2 []) sched_mix.
-Definition g_mix' := crun toyH lex_cmp 100 (init_c prog2 []) sched_mix'.
+Definition g_seq := crun toyH lex_cmp 100 nobad false (init_c prog2 []) sched_seq.
+Definition g_mix := crun toyH lex_cmp 100 nobad false (init_c prog2 []) sched_mix.
+Definition g_mix' := crun toyH lex_cmp 100 nobad false (init_c prog2 []) sched_mix'.
 
-Example g_seq_reachable : reachable toyH lex_cmp 100 prog2 [] g_seq.
+Example g_seq_reachable : reachable toyH lex_cmp 100 nobad false prog2 [] g_seq.
 Proof. exists sched_seq. reflexivity. Qed.
-Example g_mix_reachable : reachable toyH lex_cmp 100 prog2 [] g_mix.
+Example g_mix_reachable : reachable toyH lex_cmp 100 nobad false prog2 [] g_mix.
 Proof. exists sched_mix. reflexivity. Qed.
-Example g_mix'_reachable : reachable toyH lex_cmp 100 prog2 [] g_mix'.
+Example g_mix'_reachable : reachable toyH lex_cmp 100 nobad false prog2 [] g_mix'.
 Proof. exists sched_mix'. reflexivity. Qed.
 
 (* all three runs are complete; the last committer wins and only its blob remains *)
@@ -97,10 +105,10 @@ Definition no_dangling (g : cstate) : Prop :=
   forall k it, sm_get lex_cmp (km (g_idx g)) k = Some it ->
   exists c, sm_get lex_cmp (g_cas g) (ihash it) = Some c /\ toyH c = ihash it /\ len c = isize it.
 
-Lemma prog2_no_dangling g : reachable toyH lex_cmp 100 prog2 [] g -> no_dangling g.
+Lemma prog2_no_dangling g : reachable toyH lex_cmp 100 nobad false prog2 [] g -> no_dangling g.
 Proof.
   intros R. unfold no_dangling.
-  apply (C04_no_dangling toyH lex_cmp lex_refl lex_eq lex_antisym lex_trans 100 prog2
+  apply (C04_no_dangling toyH lex_cmp lex_refl lex_eq lex_antisym lex_trans 100 nobad false prog2
            prog2_nodup [] I (fun h c (F : In (h, c) []) => match F with end) prog2_nocollide g R).
 Qed.
 
@@ -113,16 +121,16 @@ Proof. apply prog2_no_dangling, g_mix'_reachable. Qed.
 
 (* an intermediate state of the interleaved run: both intents registered, both blobs present,
    nothing indexed yet; the invariant (hence no dangling, deadlock freedom) applies too *)
-Definition g_mid := crun toyH lex_cmp 100 (init_c prog2 []) (firstn 9 sched_mix).
+Definition g_mid := crun toyH lex_cmp 100 nobad false (init_c prog2 []) (firstn 9 sched_mix).
 Example g_mid_state :
   km (g_idx g_mid) = [] /\
   g_byhash g_mid = [(toyH [10], 1); (toyH [20; 21], 1)] /\
   map fst (g_cas g_mid) = [toyH [10]; toyH [20; 21]] /\ g_I g_mid = Some 1%nat.
 Proof. vm_compute. repeat split. Qed.
 
-Example g_mid_can_move : exists t, enabled toyH lex_cmp 100 g_mid t = true.
+Example g_mid_can_move : exists t, enabled toyH lex_cmp 100 nobad false g_mid t = true.
 Proof.
-  apply (C15_deadlock_free toyH lex_cmp lex_refl lex_eq lex_antisym lex_trans 100 prog2
+  apply (C15_deadlock_free toyH lex_cmp lex_refl lex_eq lex_antisym lex_trans 100 nobad false prog2
            prog2_nodup [] I (fun h c (F : In (h, c) []) => match F with end) prog2_nocollide).
   - exists (firstn 9 sched_mix). reflexivity.
   - vm_compute. reflexivity.
@@ -148,17 +156,17 @@ Definition schedA : list nat :=
   ++ repeat 1%nat 9       (* thread 1: put k := c again, complete *)
   ++ [2%nat].             (* thread 2: re-reads k and keeps the state lock shared *)
 
-Definition g_A := crun toyH lex_cmp 100 (init_c progA []) schedA.
-Definition g_A' := crun toyH lex_cmp 100 (init_c progA []) (schedA ++ [2%nat]).
+Definition g_A := crun toyH lex_cmp 100 nobad false (init_c progA []) schedA.
+Definition g_A' := crun toyH lex_cmp 100 nobad false (init_c progA []) (schedA ++ [2%nat]).
 
 Example C05_aba_now_returns_content :
-  reachable toyH lex_cmp 100 progA [] g_A /\
+  reachable toyH lex_cmp 100 nobad false progA [] g_A /\
   (* after the old schedule the reader is parked at the open under the read lock, carrying
      the CURRENT item of the key *)
   tget (g_thr g_A) 2%nat = Some (mkT [] (GOpenL [1] (mkItem (toyH [10]) 1)) []) /\
   g_R g_A = [2%nat] /\ g_S g_A = None /\
   (* its next step returns the content and releases the lock *)
-  reachable toyH lex_cmp 100 progA [] g_A' /\
+  reachable toyH lex_cmp 100 nobad false progA [] g_A' /\
   all_finished g_A' = true /\
   tget (g_thr g_A') 2%nat = Some (mkT [] Idle [CBytes (Some [10])]) /\
   g_R g_A' = [] /\
@@ -176,37 +184,122 @@ Qed.
    thread 1 is made to run a further put up to lock_S after the reader parked *)
 Definition progB : list (nat * list ccall) :=
   [(1%nat, [KPut [1] [10]; KRemove [1]; KPut [1] [10]; KPut [2] [30; 31; 32]]); (2%nat, [KGet [1]])].
-Definition g_B := crun toyH lex_cmp 100 (init_c progB []) (schedA ++ repeat 1%nat 5).
+Definition g_B := crun toyH lex_cmp 100 nobad false (init_c progB []) (schedA ++ repeat 1%nat 5).
 Example reader_blocks_exclusive_S :
   tget (g_thr g_B) 1%nat =
     Some (mkT [] (WLockS (WPut [2] (toyH [30; 31; 32]) 3)) [CUnit; CBool true; CUnit]) /\
   g_R g_B = [2%nat] /\
-  enabled toyH lex_cmp 100 g_B 1%nat = false /\ enabled toyH lex_cmp 100 g_B 2%nat = true.
+  enabled toyH lex_cmp 100 nobad false g_B 1%nat = false /\ enabled toyH lex_cmp 100 nobad false g_B 2%nat = true.
 Proof. vm_compute. repeat split. Qed.
 
 (* the general theorem on this program: no reachable state has a CMissing result *)
-Example progA_never_missing g : reachable toyH lex_cmp 100 progA [] g ->
+Example progA_never_missing g : reachable toyH lex_cmp 100 nobad false progA [] g ->
   forall t ts, tget (g_thr g) t = Some ts -> ~ In CMissing (t_res ts).
 Proof.
-  apply (C05_read_never_fails toyH lex_cmp lex_refl lex_eq lex_antisym lex_trans 100 progA
+  apply (C05_read_never_fails toyH lex_cmp lex_refl lex_eq lex_antisym lex_trans 100 nobad false progA
            progA_nodup [] I (fun h c (F : In (h, c) []) => match F with end) progA_nocollide).
 Qed.
 
 (* ---- 3. progress on the two-put program ---- *)
 (* at most 24 steps under ANY schedule (total work 2 * 12) *)
 Example prog2_step_bound : forall sched,
-  (csteps toyH lex_cmp 100 (init_c prog2 []) sched <= 24)%nat.
+  (csteps toyH lex_cmp 100 nobad false (init_c prog2 []) sched <= 24)%nat.
 Proof.
   intros sched.
-  apply (C15_progress toyH lex_cmp lex_refl lex_eq lex_antisym lex_trans 100 prog2 [] sched).
+  apply (C15_progress toyH lex_cmp lex_refl lex_eq lex_antisym lex_trans 100 nobad false prog2 [] sched).
 Qed.
 
 (* from the intermediate state some schedule completes both calls *)
-Example g_mid_completes : exists sched, all_finished (crun toyH lex_cmp 100 g_mid sched) = true.
+Example g_mid_completes : exists sched, all_finished (crun toyH lex_cmp 100 nobad false g_mid sched) = true.
 Proof.
-  apply (C15_calls_complete toyH lex_cmp lex_refl lex_eq lex_antisym lex_trans 100 prog2
+  apply (C15_calls_complete toyH lex_cmp lex_refl lex_eq lex_antisym lex_trans 100 nobad false prog2
            prog2_nodup [] I (fun h c (F : In (h, c) []) => match F with end) prog2_nocollide).
   exists (firstn 9 sched_mix). reflexivity.
+Qed.
+
+(* ---- 4. faults ---- *)
+(* the path of the blob of [10] is obstructed; every checkpoint fails *)
+Definition badA : bytes -> bool := fun h => beqb h (toyH [10]).
+
+Definition progC : list (nat * list ccall) :=
+  [(1%nat, [KPut [1] [10]; KCheckpoint]); (2%nat, [KPut [1] [20; 21]])].
+
+Lemma progC_nodup : NoDup (map fst progC).
+Proof. cbn. repeat constructor; cbn; intuition discriminate. Qed.
+
+Lemma progC_nocollide :
+  forall a b, In a (allc progC []) -> In b (allc progC []) -> toyH a = toyH b -> a = b.
+Proof. apply nocollide_list_sound. vm_compute. reflexivity. Qed.
+
+(* both threads register their intents; thread 1's rename fails and it parks at the drop of
+   its guard; thread 2 commits; thread 1 reverts its intent, returns CErr, then checkpoints *)
+Definition sched_C : list nat :=
+  [1; 1; 1; 2; 2; 2; 1]%nat ++ repeat 2%nat 6 ++ repeat 1%nat 4.
+
+Definition g_C_mid := crun toyH lex_cmp 100 badA true (init_c progC []) (firstn 7 sched_C).
+Definition g_C := crun toyH lex_cmp 100 badA true (init_c progC []) sched_C.
+
+(* thread 1 is parked at guard_drop.lock_I: it remembers that it replaced nothing in by_key,
+   while by_key[k] now belongs to thread 2; both hashes are in the ledger *)
+Example g_C_mid_state :
+  tget (g_thr g_C_mid) 1%nat = Some (mkT [KCheckpoint] (PDropI [1] (toyH [10]) None) []) /\
+  g_bykey g_C_mid = [([1], toyH [20; 21])] /\
+  g_byhash g_C_mid = [(toyH [10], 1); (toyH [20; 21], 1)] /\ g_cas g_C_mid = [].
+Proof. vm_compute. repeat split. Qed.
+
+Example g_C_final :
+  all_finished g_C = true /\
+  tget (g_thr g_C) 1%nat = Some (mkT [] Idle [CErr; CErr]) /\   (* failed put, failed checkpoint *)
+  tget (g_thr g_C) 2%nat = Some (mkT [] Idle [CUnit]) /\
+  km (g_idx g_C) = [([1], mkItem (toyH [20; 21]) 2)] /\
+  g_cas g_C = [(toyH [20; 21], [20; 21])] /\ g_byhash g_C = [] /\ g_bykey g_C = [] /\
+  g_I g_C = None /\ g_S g_C = None.
+Proof. vm_compute. repeat split. Qed.
+
+Example g_C_reachable : reachable toyH lex_cmp 100 badA true progC [] g_C.
+Proof. exists sched_C. reflexivity. Qed.
+
+(* the general theorems with a nonempty bad and failing checkpoints *)
+Example g_C_no_dangling : no_dangling g_C.
+Proof.
+  unfold no_dangling.
+  apply (C04_no_dangling toyH lex_cmp lex_refl lex_eq lex_antisym lex_trans 100 badA true progC
+           progC_nodup [] I (fun h c (F : In (h, c) []) => match F with end) progC_nocollide g_C
+           g_C_reachable).
+Qed.
+
+Example g_C_mid_can_move : exists t, enabled toyH lex_cmp 100 badA true g_C_mid t = true.
+Proof.
+  apply (C15_deadlock_free toyH lex_cmp lex_refl lex_eq lex_antisym lex_trans 100 badA true progC
+           progC_nodup [] I (fun h c (F : In (h, c) []) => match F with end) progC_nocollide).
+  - exists (firstn 7 sched_C). reflexivity.
+  - vm_compute. reflexivity.
+Qed.
+
+(* the run is exact at quiescence although calls failed: nothing was leaked here, and the
+   general theorem says so for every run of this program in which no path is obstructed;
+   with badA it only applies to runs without error results, so here exactness is by computation *)
+Example g_C_exact : map fst (g_cas g_C) = map (fun e => ihash (snd e)) (km (g_idx g_C)).
+Proof. vm_compute. reflexivity. Qed.
+
+(* C07 on the fault-free two-put program: every complete run is exact *)
+Example prog2_quiescent_exact g : reachable toyH lex_cmp 100 nobad false prog2 [] g ->
+  all_finished g = true ->
+  forall h, sm_get lex_cmp (g_cas g) h <> None <->
+            exists k it, In (k, it) (km (g_idx g)) /\ ihash it = h.
+Proof.
+  intros R AF.
+  apply (C07_quiescent_exact_nofaults toyH lex_cmp lex_refl lex_eq lex_antisym lex_trans 100 nobad
+           false prog2 prog2_nodup [] I (fun h c (F : In (h, c) []) => match F with end)
+           prog2_nocollide g eq_refl R AF (fun _ => eq_refl)).
+Qed.
+
+(* the step bound does not depend on the faults: at most 12 + 3 + 12 steps *)
+Example progC_step_bound : forall sched,
+  (csteps toyH lex_cmp 100 badA true (init_c progC []) sched <= 27)%nat.
+Proof.
+  intros sched.
+  apply (C15_progress toyH lex_cmp lex_refl lex_eq lex_antisym lex_trans 100 badA true progC [] sched).
 Qed.
 
 Print Assumptions g_seq_no_dangling.
@@ -217,3 +310,9 @@ Print Assumptions reader_blocks_exclusive_S.
 Print Assumptions progA_never_missing.
 Print Assumptions prog2_step_bound.
 Print Assumptions g_mid_completes.
+Print Assumptions g_C_mid_state.
+Print Assumptions g_C_final.
+Print Assumptions g_C_no_dangling.
+Print Assumptions g_C_mid_can_move.
+Print Assumptions prog2_quiescent_exact.
+Print Assumptions progC_step_bound.
